@@ -121,11 +121,21 @@ class Greedy:
         self.margins = []
         self.d = np.full(len(X), np.inf)
         self.lab = np.full(len(X), -1, dtype=int)
+        self.assign_margin = np.inf
         for c in (init if init is not None else [0]):
             self._add(c)
 
     def _add(self, c):
         dist = self.metric(self.X, self.X[c])
+        # how close does any frame come to being equidistant to the new centre and its current one?
+        fin = np.isfinite(self.d)
+        if fin.any():
+            scale = max(float(dist.max()), float(self.d[fin].max()), 1e-300)
+            gap = np.abs(dist[fin] - self.d[fin]) / scale
+            both0 = (dist[fin] == 0) & (self.d[fin] == 0)
+            gap = gap[~both0]
+            if gap.size:
+                self.assign_margin = min(self.assign_margin, float(gap.min()))
         upd = dist < self.d
         self.d[upd] = dist[upd]
         self.lab[upd] = len(self.centers)
